@@ -169,3 +169,42 @@
       (= (hexcount a o (bvadd p #x0000000000000001))
          (bvadd (hexcount a o p) (ite (ishex (select a (bvadd o p))) #x0000000000000001 #x0000000000000000)))))
 
+;; block varint
+; CQL varint (spec §6.24): two's-complement big-endian of MINIMAL length.
+; varint_len(v): the least n in 1..8 with -2^(8n-1) <= v < 2^(8n-1);
+; varint_val(b,n): the sign-extended value of the n (1..8) bytes; be_uval: the unsigned value of n (0..8) bytes.
+; sig varint_len(int64) int
+; sig varint_val(bytes, int) int64
+; sig be_uval(bytes, int) uint64
+(define-fun varint_len ((v (_ BitVec 64))) (_ BitVec 64) (ite (and (bvsle #xffffffffffffff80 v) (bvsle v #x000000000000007f)) #x0000000000000001 (ite (and (bvsle #xffffffffffff8000 v) (bvsle v #x0000000000007fff)) #x0000000000000002 (ite (and (bvsle #xffffffffff800000 v) (bvsle v #x00000000007fffff)) #x0000000000000003 (ite (and (bvsle #xffffffff80000000 v) (bvsle v #x000000007fffffff)) #x0000000000000004 (ite (and (bvsle #xffffff8000000000 v) (bvsle v #x0000007fffffffff)) #x0000000000000005 (ite (and (bvsle #xffff800000000000 v) (bvsle v #x00007fffffffffff)) #x0000000000000006 (ite (and (bvsle #xff80000000000000 v) (bvsle v #x007fffffffffffff)) #x0000000000000007 #x0000000000000008))))))))
+(define-fun varint_val ((a (Array (_ BitVec 64) (_ BitVec 8))) (o (_ BitVec 64)) (n (_ BitVec 64))) (_ BitVec 64) (ite (= n #x0000000000000001) ((_ sign_extend 56) (select a (bvadd o #x0000000000000000))) (ite (= n #x0000000000000002) ((_ sign_extend 48) (concat (select a (bvadd o #x0000000000000000)) (select a (bvadd o #x0000000000000001)))) (ite (= n #x0000000000000003) ((_ sign_extend 40) (concat (select a (bvadd o #x0000000000000000)) (select a (bvadd o #x0000000000000001)) (select a (bvadd o #x0000000000000002)))) (ite (= n #x0000000000000004) ((_ sign_extend 32) (concat (select a (bvadd o #x0000000000000000)) (select a (bvadd o #x0000000000000001)) (select a (bvadd o #x0000000000000002)) (select a (bvadd o #x0000000000000003)))) (ite (= n #x0000000000000005) ((_ sign_extend 24) (concat (select a (bvadd o #x0000000000000000)) (select a (bvadd o #x0000000000000001)) (select a (bvadd o #x0000000000000002)) (select a (bvadd o #x0000000000000003)) (select a (bvadd o #x0000000000000004)))) (ite (= n #x0000000000000006) ((_ sign_extend 16) (concat (select a (bvadd o #x0000000000000000)) (select a (bvadd o #x0000000000000001)) (select a (bvadd o #x0000000000000002)) (select a (bvadd o #x0000000000000003)) (select a (bvadd o #x0000000000000004)) (select a (bvadd o #x0000000000000005)))) (ite (= n #x0000000000000007) ((_ sign_extend 8) (concat (select a (bvadd o #x0000000000000000)) (select a (bvadd o #x0000000000000001)) (select a (bvadd o #x0000000000000002)) (select a (bvadd o #x0000000000000003)) (select a (bvadd o #x0000000000000004)) (select a (bvadd o #x0000000000000005)) (select a (bvadd o #x0000000000000006)))) (ite (= n #x0000000000000008) (concat (select a (bvadd o #x0000000000000000)) (select a (bvadd o #x0000000000000001)) (select a (bvadd o #x0000000000000002)) (select a (bvadd o #x0000000000000003)) (select a (bvadd o #x0000000000000004)) (select a (bvadd o #x0000000000000005)) (select a (bvadd o #x0000000000000006)) (select a (bvadd o #x0000000000000007))) #x0000000000000000)))))))))
+(define-fun be_uval ((a (Array (_ BitVec 64) (_ BitVec 8))) (o (_ BitVec 64)) (n (_ BitVec 64))) (_ BitVec 64) (ite (= n #x0000000000000001) ((_ zero_extend 56) (select a (bvadd o #x0000000000000000))) (ite (= n #x0000000000000002) ((_ zero_extend 48) (concat (select a (bvadd o #x0000000000000000)) (select a (bvadd o #x0000000000000001)))) (ite (= n #x0000000000000003) ((_ zero_extend 40) (concat (select a (bvadd o #x0000000000000000)) (select a (bvadd o #x0000000000000001)) (select a (bvadd o #x0000000000000002)))) (ite (= n #x0000000000000004) ((_ zero_extend 32) (concat (select a (bvadd o #x0000000000000000)) (select a (bvadd o #x0000000000000001)) (select a (bvadd o #x0000000000000002)) (select a (bvadd o #x0000000000000003)))) (ite (= n #x0000000000000005) ((_ zero_extend 24) (concat (select a (bvadd o #x0000000000000000)) (select a (bvadd o #x0000000000000001)) (select a (bvadd o #x0000000000000002)) (select a (bvadd o #x0000000000000003)) (select a (bvadd o #x0000000000000004)))) (ite (= n #x0000000000000006) ((_ zero_extend 16) (concat (select a (bvadd o #x0000000000000000)) (select a (bvadd o #x0000000000000001)) (select a (bvadd o #x0000000000000002)) (select a (bvadd o #x0000000000000003)) (select a (bvadd o #x0000000000000004)) (select a (bvadd o #x0000000000000005)))) (ite (= n #x0000000000000007) ((_ zero_extend 8) (concat (select a (bvadd o #x0000000000000000)) (select a (bvadd o #x0000000000000001)) (select a (bvadd o #x0000000000000002)) (select a (bvadd o #x0000000000000003)) (select a (bvadd o #x0000000000000004)) (select a (bvadd o #x0000000000000005)) (select a (bvadd o #x0000000000000006)))) (ite (= n #x0000000000000008) (concat (select a (bvadd o #x0000000000000000)) (select a (bvadd o #x0000000000000001)) (select a (bvadd o #x0000000000000002)) (select a (bvadd o #x0000000000000003)) (select a (bvadd o #x0000000000000004)) (select a (bvadd o #x0000000000000005)) (select a (bvadd o #x0000000000000006)) (select a (bvadd o #x0000000000000007))) #x0000000000000000)))))))))
+
+;; block vint
+; Cassandra VIntCoding (spec §6 "vint"/[duration]): the number of leading 1 bits of the
+; first byte is the number of extra bytes e; the value is the remaining bits of the first
+; byte followed by the e extra bytes, big endian; signed values are zig-zag encoded.
+; vint_size(u): 1 + floor((bitlen(u)-1)/7) capped at 9, i.e. the least size that holds u.
+; sig vint_extra(uint8) int
+; sig vint_uval(bytes, int) uint64
+; sig vint_size(uint64) int
+; sig zigzag(int64) uint64
+; sig unzigzag(uint64) int64
+(define-fun vint_extra ((b (_ BitVec 8))) (_ BitVec 64) (ite (= (bvand b #x80) #x00) #x0000000000000000 (ite (= (bvand b #xc0) #x80) #x0000000000000001 (ite (= (bvand b #xe0) #xc0) #x0000000000000002 (ite (= (bvand b #xf0) #xe0) #x0000000000000003 (ite (= (bvand b #xf8) #xf0) #x0000000000000004 (ite (= (bvand b #xfc) #xf8) #x0000000000000005 (ite (= (bvand b #xfe) #xfc) #x0000000000000006 (ite (= (bvand b #xff) #xfe) #x0000000000000007 #x0000000000000008)))))))))
+(define-fun vint_uval ((a (Array (_ BitVec 64) (_ BitVec 8))) (o (_ BitVec 64)) (i (_ BitVec 64))) (_ BitVec 64)
+  (let ((b (select a (bvadd o i))))
+  (let ((e (vint_extra b)))
+    (bvor (bvshl ((_ zero_extend 56) (bvand b (bvlshr #xff ((_ extract 7 0) e)))) (bvmul e #x0000000000000008))
+          (be_uval a (bvadd o i #x0000000000000001) (ite (= e #x0000000000000008) #x0000000000000008 e))))))
+(define-fun vint_size ((u (_ BitVec 64))) (_ BitVec 64) (ite (bvult u #x0000000000000080) #x0000000000000001 (ite (bvult u #x0000000000004000) #x0000000000000002 (ite (bvult u #x0000000000200000) #x0000000000000003 (ite (bvult u #x0000000010000000) #x0000000000000004 (ite (bvult u #x0000000800000000) #x0000000000000005 (ite (bvult u #x0000040000000000) #x0000000000000006 (ite (bvult u #x0002000000000000) #x0000000000000007 (ite (bvult u #x0100000000000000) #x0000000000000008 #x0000000000000009)))))))))
+(define-fun zigzag ((n (_ BitVec 64))) (_ BitVec 64) (bvxor (bvashr n #x000000000000003f) (bvshl n #x0000000000000001)))
+(define-fun unzigzag ((u (_ BitVec 64))) (_ BitVec 64) (bvxor (bvlshr u #x0000000000000001) (bvneg (bvand u #x0000000000000001))))
+
+;; block date
+; CQL date (spec §6.5): unsigned days since the epoch centred on 2^31, i.e. 2^31 + floor(ms / 86400000)
+; sig cql_date(int64) uint32
+(define-fun cql_date ((ms (_ BitVec 64))) (_ BitVec 32)
+  (let ((q (bvsdiv ms #x0000000005265c00)) (r (bvsrem ms #x0000000005265c00)))
+  (let ((fl (ite (bvslt r #x0000000000000000) (bvsub q #x0000000000000001) q)))
+    ((_ extract 31 0) (bvadd fl #x0000000080000000)))))
+
